@@ -493,7 +493,9 @@ class GenI(object):
         if r < 0.30:
             return {"t": "expr", "e": self.expr(depth)}
         if r < 0.48:
-            return {"t": "assign", "targets": self.rng.sample(I_POOL, self.rng.randint(1, 2)), "e": self.expr(depth)}
+            # (now and then a local variable with the name of the imported root package)
+            pool = I_POOL + ([self.pk] if self.rng.random() < 0.5 else [])
+            return {"t": "assign", "targets": self.rng.sample(pool, self.rng.randint(1, 2)), "e": self.expr(depth)}
         if r < 0.70:
             return self.imp(accepted_only)
         if r < 0.88 and depth > 0:
@@ -505,7 +507,7 @@ class GenI(object):
     def defn(self, depth, accepted_only):
         self.uid += 1
         fname = self.rng.choice(["inner%d" % self.uid] + (I_FNS + I_LOCALS if self.rng.random() < 0.3 else []))
-        ps = self.rng.sample(I_POOL, self.rng.randint(0, 2))
+        ps = self.rng.sample(I_POOL + ([self.pk] if self.rng.random() < 0.35 else []), self.rng.randint(0, 2))
         hdr = self.use(self.rng.choice(I_POOL)) if self.rng.random() < 0.4 else {"t": "const"}
         if hdr["t"] != "const":
             ps = ps + ["_d%d" % self.uid]
@@ -617,6 +619,10 @@ IMPORT_CASES = [
      "    class K(object):\n        tool = 1\n        def m(self):\n            return tool.fa()\n    return term('f1', k('x'), ks, K().m())\n", True),
     ("a default value that uses the import the parameter is named after",
      "def f1():\n    from %(pk)s import ma as tool\n    def g(tool=tool.fa()):\n        return tool\n    return term('f1', g())\n", True),
+    ("a local variable and a parameter with the name of the root package of the import",
+     "def f1(%(pk)s=5):\n    from %(pk)s import ma\n    from %(pk)s.mb import fa as fb_, XA as xb\n    %(pk)s = 3\n    return term('f1', ma.fa(), fb_(), xb, %(pk)s)\n", True),
+    ("functions referenced, not called, through names imported in the body",
+     "from ddsverif_rt import hof\n\ndef f1():\n    from %(pk)s.ma import fa as r\n    from %(pk)s import mb as tool\n    return term('f1', hof(r), hof(tool.fa))\n", True),
     ("imports of variables and functions, relative forms",
      "def f1():\n    from .ma import fa as a1, XA as x1\n    from . import mb\n    return term('f1', a1(), x1, mb.fa(), mb.XA)\n", True),
 ]
@@ -669,7 +675,7 @@ def run_imports(ctx, res, thorough):
         with open(os.path.join(base, pk, "scopes.py"), "w") as fh:
             fh.write(src)
         oracle, over = cpython_global_reads([(head + fsrc, "f%d" % i) for (i, _, _, fsrc) in cases])
-        answers = common.drv_batch([{"op": "imports", "params": ps, "body": strip_i(b), "accepted": [pk], "roots": [pk, ext]}
+        answers = common.drv_batch([{"op": "imports", "params": ps, "body": strip_i(b), "accepted": [pk]}
                                     for (_, ps, b, _) in cases]) if ctx["driver_ok"] else []
         for idx, (i, params, body, fsrc) in enumerate(cases):
             res.evaluations += 1
@@ -678,7 +684,7 @@ def run_imports(ctx, res, thorough):
             refused = None
             try:
                 vs, fs = analysed_names_full(pk + ".scopes", "f%d" % i)
-                impl = {"var:" + v for v in vs} | {"fun:" + f for f in fs}
+                impl = {"var:" + v.replace(".", "/") for v in vs} | {"fun:" + f for f in fs}
             except DDSException as e:
                 refused = e.error_code.name if e.error_code is not None else "NO_CODE"
                 impl = None
@@ -709,6 +715,8 @@ def run_imports(ctx, res, thorough):
                 res.count("import_cases_where_no_resolution_differs")
             if set(m["text_order"]) != set(m["python"]) and m["hypotheses"]:
                 res.count("import_cases_where_text_order_resolution_differs")
+            if set(m["chain"]) != set(m["python"]) and m["hypotheses"]:
+                res.count("import_cases_where_a_local_hides_the_root_package")
             if oracle is not None:
                 py_globs = {r[2:] for r in m["python"] if r.startswith("g:")}
                 if py_globs != oracle[idx] - {"Exception"}:
